@@ -449,7 +449,7 @@ PROPS = {
     ),
     "C10": dict(
         thm=["Bgpfu.Thm.C10"],
-        ops=[("ser", ["cfg=c1011"])],
+        ops=[("ser", ["cfg=c1011"]), ("sendecho", [])],
         level_text="Theorems for all byte strings (no bound on lengths or tree size): unescape(escape s) = s; escape never "
                    "emits < > \" ' and & only as one of the five references; a request whose raw leaves are marker-free "
                    "carries the delimiter exactly once, at the end (it is well framed in the sense of C06); well-formed "
